@@ -213,6 +213,8 @@ func loopProgress(p *Program, fn *ssa.Function, e backEdge, shrink func(ssa.Inst
 
 func runC20(c *Ctx) {
 	p := c.P
+	c.Rule("R7", "callPrimary rediscovers the topology whenever the primary cannot be used, whatever it believes about the other endpoints", 1)
+	rediscoveryUnconditional(c, "R7")
 	c.Rule("R1", "selection guards of NextReadEndpoint / Primary", 6)
 	c.Rule("R2", "round-robin scans are bounded by the number of endpoints", 1)
 	c.Rule("R3", "writes go to the leader", 3)
